@@ -1,10 +1,13 @@
 SPECIFICATION Spec
 CONSTANTS N = 4 UCap = 6 WakeAll = TRUE WithContent = FALSE
+          Views = {"full"} ReduceKey = TRUE WireStops = FALSE WireLen = 0
 INVARIANT TypeOK
+INVARIANT KeyIsPublic
 INVARIANT OnlyValidConnected
 INVARIANT Complete
 INVARIANT NeverBad
 INVARIANT WaitingAreDisjoint
 INVARIANT ContentBound
 INVARIANT PublicRoundTrip
+INVARIANT PublicReloadsClean
 INVARIANT PathRoundTrip
